@@ -19,7 +19,7 @@ import bind_impl as I
 import bind_mach as MA
 from bind_spec import cpython_oracle, satisfies, spec_call
 from common import LEAN, VERIF, run_driver
-from framework import lean_obligations, scn_hash
+from framework import lean_obligations, scn_hash, safe_probe
 
 DRV = dict(exe="drv_bind", root="DrvBind.lean")
 
@@ -756,7 +756,7 @@ def probe_internal_names(seed):
 
 def run(ctx):
     lean_obligations(ctx)
-    nn, nf = probe_internal_names(ctx.seed)
+    nn, nf = safe_probe(probe_internal_names, ctx.seed, pair=True)
     ctx.coverage["internal_parameter_names_sent_as_user_keywords"] = nn
     if nf:
         ctx.violation(ctx.write_replay("internal_names.txt", "\n".join(nf[:15]) + "\n"), nf[0][:200])
